@@ -11,7 +11,7 @@ macro_rules! keys_inhabited {
     ($(($a:expr, $b:expr)),*) => { $( { let d = B::build(&obj(&[$a, $b], &[leaf(K_NULL, 0), leaf(K_NULL, 0)])); kani::cover!(d.n > 0, "two sorted keys of these lengths exist"); } )* };
 }
 
-//@ props: C01, C03, C04, C05, C06, C07, C08, C10, C11, C12, C13, C14, C15, C17, C19, C20
+//@ props: C01, C04, C05, C06, C07, C10, C12, C14, C17, C19, C20
 //@ timeout: 600
 //@ desc: generator guard: each of the 11 scalar classes (null, true, false, numbers of encoded width 1/2/3/5/9, strings of 0/1/2 bytes) and each key-length pattern (0,1) (1,1) (1,2) (2,1) (2,2) admits a document under the validity assumptions (shortest number encodings, UTF-8, strictly increasing keys), so no case-split arm of any byte-level harness is vacuous; strings of 3 and 4 bytes likewise
 //@ fns: (harness-side document builder)
